@@ -106,7 +106,7 @@ def run(tier, seed):
     chk.cov["rule"] = (f"{shards} shards x {n_} cases of each experiment: tone (TP 0,1,2,0xFFF, random 12-bit with garbage in the unused nibble; every half "
                        "period exactly TP ticks), noise (NP 0,1,31, random; run lengths multiples of 2NP with gcd 2NP over 800 NP ticks), envelope (16 shapes x "
                        "EP 1,2,0,random; 150 EP ticks after the R13 write, tick by tick), mixer (random register sets, 3000 ticks), envelope period rewritten in mid-step without an R13 write (repeating shapes must not rest longer than two periods), register histories (10..40 writes to any register in any order interleaved with generation, every tick of every channel judged against the registers in force and the envelope position since the last R13 write), DAC monotone, pan for "
-                       "7 modes x 3 channels, one-second zero-crossing count at 8..384 kHz, and select/write/read sequences through ports 0xFFFD/0xBFFD")
+                       "7 modes x 3 channels, one-second zero-crossing count at 8..384 kHz, select/write/read sequences through ports 0xFFFD/0xBFFD, and a one-shot envelope started, left to die away and restarted through the Spectrum's ports by writing R13 again (mostly with the same value)")
     chk.assumptions += ["numeric accuracy of interpolation / FIR decimation / DC filter is not decided (TLA+ has no reals); only quantised features of the output are",
                         "the noise polynomial is not part of the statement: only the noise clock is judged"]
     return chk.finish()
